@@ -158,10 +158,12 @@ def create_database(
     )
     file_hash_path = _get_file_hash_path(cmd.zettel_dir)
     file_to_hash = _get_file_hash_map(cmd.zettel_dir)
-    _write_file_hash_to_disk(file_hash_path, file_to_hash)
+    # The hash map is what makes a later reindex skip a page, so it is written
+    # last: a run that dies before it is complete gets repeated in full.
     c.atomic_write_text(
         error_file_whitelist, "\n".join(sorted(error_files))
     )
+    _write_file_hash_to_disk(file_hash_path, file_to_hash)
     session.commit()
 
 
@@ -270,10 +272,12 @@ def reindex_database(
     # the write-back look complete to the next reindex.
     for zorg_page_name in pages_awaiting_write_back:
         file_to_hash.pop(zorg_page_name, None)
-    _write_file_hash_to_disk(file_hash_path, file_to_hash)
+    # The hash map is what makes a later reindex skip a page, so it is written
+    # last: a run that dies before it is complete gets repeated in full.
     c.atomic_write_text(
         error_file_whitelist, "\n".join(sorted(error_files))
     )
+    _write_file_hash_to_disk(file_hash_path, file_to_hash)
     session.commit()
 
 
